@@ -84,19 +84,22 @@ def view(ir, strict_types=True):
 
 
 def docs(ir):
+    """descriptions up to whitespace and a terminal full stop: cdd's own argparse emitter wraps long help strings with
+    a line break inside the literal, so descriptions of argparse targets can only be compared modulo whitespace"""
     return [(n, normdoc(p.get("doc"))) for n, p in ir["params"].items()]
 
 
 @st.composite
 def case_strategy(draw):
-    irs = [draw(gen_ir.interface("common", min_params=1, max_params=4, returns=False, min_literal=2)) for _ in range(3)]
+    long_doc = draw(st.booleans())
+    irs = [draw(gen_ir.interface("common", min_params=1, max_params=4, returns=False, min_literal=2, doc=gen_ir.boundary_descr() if long_doc else gen_ir.descr)) for _ in range(3)]
     same = draw(st.integers(0, 3)) == 0
     if same:
         irs = [irs[0]] * 3
     truth = draw(st.sampled_from(KINDS))
     states = {k: draw(st.sampled_from(["present", "present", "missing", "empty"])) for k in KINDS}
     states[truth] = "present"
-    return {"irs": irs, "same": same, "truth": truth, "states": states, "method": draw(st.booleans()), "runs": draw(st.integers(1, 3)), "nww": draw(st.booleans())}
+    return {"long_doc": long_doc, "irs": irs, "same": same, "truth": truth, "states": states, "method": draw(st.booleans()), "runs": draw(st.integers(1, 3)), "nww": draw(st.booleans())}
 
 
 def strategy(ctx):
@@ -112,6 +115,8 @@ def oracle(case):
             r.label("state:" + states[k])
     if case["same"]:
         r.label("already-equal")
+    if case.get("long_doc"):
+        r.label("descriptions-across-wrap-column")
     d = tempfile.mkdtemp(prefix="c12_", dir="/dev/shm" if os.path.isdir("/dev/shm") else None)
     try:
         paths = {k: os.path.join(d, k[0] + ".py") for k in KINDS}
